@@ -148,6 +148,11 @@ class TraceStore(object):
         rc = [self.h.rnum(r) for r in envelope.recipients]
         self.h.accepted[mid] = (bool(envelope.sender), list(rc))
         self.h.emit((0, 1 if envelope.sender else 0, bytes(rc), int(timestamp)))
+        if self.h.post_write_gate:
+            # the message is in storage but enqueue() has not resumed yet: the window in which a
+            # storage that announces its own writes (redis, cloud + message queue) can deliver the
+            # announcement of this very id
+            self.h.gate('written', mid)
         return rid
 
     def increment_attempts(self, id):
@@ -435,6 +440,7 @@ class QH(object):
         self.flush_returns = 0
         self.errors = []
         self.load_errors = []
+        self.post_write_gate = False
         self.volatile_ts = {}     # mid -> timestamp to report for entries whose stored timestamp is 'now' at every listing (redis orphans)
         self.inner = inner if inner is not None else DictStorage()
         self.store = TraceStore(self, self.inner)
@@ -622,7 +628,7 @@ class QH(object):
             queued=sorted((int(ts), self.ids[rid]) for ts, rid in q.queued),
             qids=sorted(self.ids[r] for r in q.queued_ids),
             active=sorted(self.ids[r] for r in q.active_ids),
-            gates=sorted([(g.kind, g.mid) for g in self.gates if g.kind not in ('write', 'load', 'wait')] + list(self.blocked)),
+            gates=sorted([(g.kind, g.mid) for g in self.gates if g.kind not in ('write', 'written', 'load', 'wait')] + list(self.blocked)),
             sched=wait, wake=q.wake.flag, clock=self.clock)
 
     # ------------------------------------------------------------ actions
@@ -814,6 +820,7 @@ class Run(object):
         self.choices = []
         inner, self.cleanup = make_backend(cfg.get('backend', 'dict'))
         self.h = QH(inner=inner, relay_pool=cfg.get('relay_pool'), relay_kind=cfg.get('relay'))
+        self.h.post_write_gate = bool(cfg.get('race_announce'))
         self.msgs = 0
         self.flush_epoch = 0
         self.fair = True           # no announcement raced an enqueue or a pending remove
@@ -826,6 +833,9 @@ class Run(object):
             m.append(('enqueue',))
         for idx, g in enumerate(h.gates):
             m.append(('gate', idx))
+            if g.kind == 'written' and h.pending('wait'):
+                m.append(('race', idx))
+                m.append(('race', idx))
         m.append(('advance',))
         if self.cfg.get('flush', True):
             m.append(('flush',))
@@ -876,6 +886,22 @@ class Run(object):
             h.flush_epoch = self.flush_epoch
             h.act_flush()
             return ('flush',)
+        if a[0] == 'race':
+            # store.write() returns AND the storage's announcement of that id is handed to the
+            # queue's _wait_store in the same loop iteration, in this order: enqueue() is resumed
+            # by the finished write before the scheduler, woken by the announcement, scans the
+            # timetable - the id is then in the timetable and active at once
+            gw = h.gates[a[1]]
+            gwait = h.pending('wait')[0]
+            rid = h.rids[gw.mid]
+            ts = [t for t, r in h.listing() if norm_id(r) == norm_id(rid)]
+            h.gates.remove(gw)
+            h.gates.remove(gwait)
+            gw.ar.set(None)
+            gwait.ar.set([(ts[0] if ts else float(h.clock), rid)])
+            h.settle()
+            self.fair = False
+            return ('race', gw.mid)
         g = h.gates[a[1]]
         payload = None
         if g.kind == 'relay':
@@ -1074,6 +1100,10 @@ def replay_run(ctx, case):
             scripted_rounds(e, props, c.get('backend', 'dict'))
         elif c['schedule'] == 'bounded-pools':
             bounded_pool_scenario(e)
+        elif c['schedule'] == 'bounded-store-unbounded-relay':
+            unbounded_relay_pool_scenario(e)
+        elif c['schedule'] == 'bounded-store-requeue':
+            bounded_store_pool_requeue_scenario(e)
         print('scenario %s on %s: %d oracle failures / mismatches' % (c['schedule'], c.get('backend', '-'), e.n))
         return 1 if e.n else 0
     run = Run(_r.Random(0), c['cfg'], script=c['schedule'])
@@ -1209,6 +1239,60 @@ def unbounded_relay_pool_scenario(ctx):
         ctx.evaluated(('bounded-store-unbounded-relay', 2))
         if not progressed:
             ctx.fail('c12:stuck-with-unbounded-relay-pool', case, 'store_pool=2, relay_pool=None: after the same schedule as the bounded-pool deadlock the retry bookkeeping of message 0 and the attempt of message 1 must both be under way; pending gates: %r' % (h.gates,))
+    finally:
+        h.close()
+
+
+def bounded_store_pool_requeue_scenario(ctx):
+    """store_pool=2 (one slot is _wait_store's), relay pool unbounded (theorem
+    C12_relay_unbounded_never_stuck says the slot discipline cannot get stuck): while the retry
+    bookkeeping of message X occupies the free store slot, message A comes due and the scheduler
+    blocks in _dispatch waiting for a store slot (it holds queued_lock while it scans).  When X's
+    bookkeeping finishes it must be able to re-queue X, free the slot and let A be read; flush()
+    must return."""
+    h = QH(store_pool=2, relay_pool=None)
+    case = dict(schedule='bounded-store-requeue', store_pool=2)
+    try:
+        if h.pending('load'):
+            h.release(h.pending('load')[0], [])
+        h.act_enqueue('s@example.com', [0])
+        h.release(h.pending('write')[0])
+        h.release(h.pending('relay', 0)[0], ('temp',))      # X fails: _retry_later takes the free store slot
+        if not h.pending('incr', 0):
+            ctx.note('bounded-store scenario could not be set up (no incr gate)')
+            return
+        env = Envelope('s@example.com', ['r6@example.com'])
+        rid = h.inner.write(env, 0.0)
+        mid = h.new_id(rid)
+        h.accepted[mid] = (True, [6])
+        h.release(h.pending('wait')[0], [(0.0, rid)])      # A announced and due: the scheduler wants a store slot
+        h.act_advance(1)
+        blocked_before = bool(h.pending('get', mid))
+        h.release(h.pending('incr', 0)[0], 0)
+        if h.pending('set_ts', 0):
+            h.release(h.pending('set_ts', 0)[0])
+        for _ in range(3):
+            h.act_advance(1)
+        a_read = bool(h.pending('get', mid)) or any(a['id'] == mid for a in h.attempts)
+        x_again = bool(h.pending('get', 0)) or len([a for a in h.attempts if a['id'] == 0]) > 1 or any(i == 0 for t, i in [(t, h.ids.get(r)) for t, r in h.queue.queued])
+        h.act_flush()
+        # with a bounded store pool flush() itself waits for a store slot for each message it
+        # dispatches (back-pressure, not the scheduler loop): let the storage and relay calls finish
+        for _ in range(40):
+            gs = [g for g in h.gates if g.kind not in ('load', 'wait')]
+            if not gs:
+                break
+            g = gs[0]
+            h.release(g, ('ok',) if g.kind == 'relay' else (1 if g.kind == 'incr' else None))
+        ctx.evaluated(('bounded-store-requeue', 2))
+        ctx.count('bounded-store-requeue-scenario')
+        if blocked_before:
+            ctx.note('bounded-store scenario: message A was read before the retry bookkeeping finished (a store slot was free)')
+        if not (a_read and x_again) or h.flush_returns < h.flush_calls:
+            ctx.fail('c12:stuck-with-unbounded-relay-pool', case,
+                     'store_pool=2, relay_pool=None: the re-queue of message 0 ran while the scheduler waited for a store slot to read message 1; '
+                     'afterwards message 1 read/attempted: %r, message 0 scheduled again: %r, flush() calls/returns: %d/%d; pending gates: %r'
+                     % (a_read, x_again, h.flush_calls, h.flush_returns, h.gates))
     finally:
         h.close()
 
